@@ -27,6 +27,7 @@ Definition run_cmp (x : sexp) : option string :=
 Definition runners : list (sexp -> option string) :=
   [ run_cmp
   ; run_stream
+  ; run_sched
   ].
 
 Fixpoint first_some (rs : list (sexp -> option string)) (x : sexp) : string :=
